@@ -235,3 +235,35 @@ def c17_determinism(sc, base, seed):
     b = run_records(sc)
     out += cmp_records("C17", base, b, "same inputs run twice")
     return out
+
+
+def c19_late(sc, base, seed):
+    """an event late in a long run (beyond the periodic equilibrium checks) behaves as the same event early"""
+    out = []
+    if not sc["events"] or seed % 8 != 0:
+        return out
+    k = 735
+    a = copy.deepcopy(sc)
+    a["T"] = 30
+    b = copy.deepcopy(sc)
+    b["T"] = 30 + k
+    for e in a["events"]:
+        e["occ"] = min(e["occ"], 3)
+        e["dur"] = min(e["dur"], 3)
+    b["events"] = copy.deepcopy(a["events"])
+    for e in b["events"]:
+        e["occ"] += k
+    ra, rb = run_records(a), run_records(b)
+    if "error" in ra or "error" in rb:
+        if ("error" in ra) != ("error" in rb):
+            out.append(viol("C19", 0, f"shift by {k}: one run failed and the other did not", a=ra.get("error"), b=rb.get("error")))
+        return out
+    if ra["crashed"] or rb["crashed"]:
+        return out
+    if rb["n"] != ra["n"] + k:
+        out.append(viol("C19", 0, f"shift by {k}: the delayed run simulated {rb['n']} steps instead of {ra['n'] + k}"))
+        return out
+    n = ra["n"]
+    out += cmp_records("C19", ra, rb, f"all events delayed by {k} steps (long horizon)", rtol=1e-9, atol_scale=1e-9,
+                       rows_a=slice(0, n), rows_b=slice(k, k + n))
+    return out
